@@ -119,7 +119,7 @@ int main_impl(int argc, char** argv) {
     if (pid == 0) { int rc = child_explore(A, *V, P, start); fflush(stdout); _exit(rc); }
     int status = 0; long last = -1; int idle = 0;
     for (;;) { pid_t w = waitpid(pid, &status, WNOHANG); if (w == pid) break; usleep(20000);
-      if (g_sh->progress == last) { if (++idle > 1500) { kill(pid, SIGKILL); waitpid(pid, &status, 0); status = 0x7f00 | 99; break; } } else { idle = 0; last = g_sh->progress; } }
+      if (g_sh->progress == last) { if (++idle > 6000) {   /* 120 s without a finished execution: a loaded machine must not turn a slow execution into a "hang" */ kill(pid, SIGKILL); waitpid(pid, &status, 0); status = 0x7f00 | 99; break; } } else { idle = 0; last = g_sh->progress; } }
     if (WIFEXITED(status) && WEXITSTATUS(status) == 0) break;
     int code = WIFEXITED(status) ? WEXITSTATUS(status) : 128 + WTERMSIG(status);
     long k = g_sh->exec_no;
